@@ -213,9 +213,9 @@ def any_worker(arg):
 
 def check(tier, seed):
     t = pc.trees("plain", "san")
-    n = 240 if tier == "quick" else 1600
-    nprobe = 400 if tier == "quick" else 4000
-    nsan = 24 if tier == "quick" else 150
+    n = 160 if tier == "quick" else 1600
+    nprobe = 300 if tier == "quick" else 4000
+    nsan = 12 if tier == "quick" else 150
     res = Result("exploration")
     res.rule = RULE
     base = seed * 1000000 + (0 if tier == "quick" else 50000) + 800000
